@@ -7,6 +7,7 @@ import numpy as np
 from symx import core
 
 PROPERTY = "C11"
+BUDGET = {"quick": 240, "thorough": 3000}
 LEVEL = "model_checking"
 BOUNDS = {
     "quick": "HillClimbSearch.estimate with a table-driven StructureScore whose local scores are symbolic reals (one per variable and parent SET): "
@@ -85,6 +86,21 @@ def scenarios(tier, seed):
             for o in (dict(), dict(max_indegree=1), dict(fixed=[("a", "b")], black=[("c", "d")])):
                 out.append(dict(family=f"hc/n4/iter{mi}", mode="hc", names=names4, start=[], max_iter=mi, cache=True, hashseed=0, budget_s=900,
                                 max_paths=30000, cost=10 ** (mi + 2), **o))
+    # targeted partially-symbolic tables (other local scores fixed to 0): undo-moves with the tabu list disabled, and edge reversals
+    # next to long directed detours (needs 4 variables)
+    for mi in (3, 4):
+        out.append(dict(family="hc/n3/undo", mode="hc", names=names3, start=[], max_iter=mi, cache=False, hashseed=0, budget_s=100, max_paths=4000,
+                        sym=["s_b_", "s_b_a", "s_b_c", "s_b_ac"], cost=300))
+    names4 = ["a", "b", "c", "d"]
+    # undoing an earlier addition needs three parents: +a->b, +c->b, +d->b, then -a->b when S_b(cd) > S_b(acd)
+    out.append(dict(family="hc/n4/undo", mode="hc", names=names4, start=[], max_iter=5, cache=False, hashseed=1, budget_s=150, max_paths=20000,
+                    sym=["s_b_", "s_b_a", "s_b_c", "s_b_d", "s_b_ac", "s_b_ad", "s_b_cd", "s_b_acd"], white=[("a", "b"), ("c", "b"), ("d", "b")], cost=2000))
+    for start, sym in [([("a", "b"), ("b", "c"), ("c", "d"), ("a", "d")], ["s_a_", "s_a_d", "s_d_c", "s_d_ac"]),
+                       ([("a", "b"), ("b", "c"), ("c", "d"), ("a", "d")], ["s_a_", "s_a_d", "s_d_c", "s_d_ac", "s_c_b", "s_c_bd", "s_d_a"]),
+                       ([("a", "b"), ("b", "c"), ("a", "c"), ("c", "d")], ["s_a_", "s_a_c", "s_c_b", "s_c_ab", "s_d_c", "s_d_"])]:
+        for mi in (1, 2):
+            out.append(dict(family="hc/n4/flip", mode="hc", names=names4, start=start, max_iter=mi, cache=True, hashseed=mi % 2, budget_s=100, max_paths=4000,
+                            sym=sym, cost=300))
     # exhaustive
     out.append(dict(family="exhaustive/n2", mode="es", names=["a", "b"], nsym=None, hashseed=0, budget_s=60))
     for which in range(3 if tier == "quick" else 8):
@@ -139,13 +155,15 @@ def run_hc(desc, M):
     from pgmpy.base import DAG
     from pgmpy.estimators import HillClimbSearch
     names = desc["names"]
-    M.declare(score_names(names) + ["eps"])
+    symset = desc.get("sym")
+    M.declare((score_names(names) if symset is None else list(symset)) + ["eps"])
     S = {}
     for v in names:
         others = [x for x in names if x != v]
         for r in range(len(others) + 1):
             for ps in itertools.combinations(others, r):
-                S[(v, frozenset(ps))] = M.sym(f"s_{v}_{''.join(ps)}")
+                nm_ = f"s_{v}_{''.join(ps)}"
+                S[(v, frozenset(ps))] = M.sym(nm_) if (symset is None or nm_ in symset) else M.const(0)
     eps = M.sym("eps", nonneg=True)
     data = pd.DataFrame([[0] * len(names), [1] * len(names)], columns=names)
     score = make_score(M, names, S, data)
